@@ -7,7 +7,7 @@
    (strict line, junk-tolerant line, sized binary block) issued one after the other on the
    one cursor, up to and including the first read that would wait (RBlocked) or that saw
    Ctrl-C (RInterrupted). *)
-From Trzsz Require Import Base.Bytes Gen.Consts Model.Buffer Proofs.Buffer.
+From Trzsz Require Import Base.Bytes Gen.Consts Model.Buffer Proofs.Buffer Model.Pump Proofs.Pump.
 From Coq Require Import ZArith.
 
 (* every segmentation of the same stream yields the same lines and blocks in the same
@@ -73,6 +73,69 @@ Theorem after_interrupt_differs :
   fst (run_cont interrupt_witness_ops interrupt_witness_b) = [RInterrupted; RData [99]].
 Proof. exact interrupt_state_depends_on_chunking. Qed.
 Print Assumptions after_interrupt_differs.
+
+(* ---- the path from the byte source into the buffer (Model/Pump.v) ----
+   A pump (wrapTransferInput, TrzszFilter.wrapOutput during a transfer, the relay pumps) calls
+   Read on the source with a buffer of B bytes and hands every non-empty read on.  [evs] is
+   what the source has ready at each call: a segment, possibly empty, possibly together with
+   io.EOF.  Whatever the segmentation, the pump hands on exactly the delivered bytes, in
+   order, in non-empty chunks of at most B bytes. *)
+Theorem C03_source_to_buffer : forall B stop evs, (0 < B)%nat ->
+  concat (pump_reads B stop evs) = delivered stop evs /\
+  Forall (fun c => c <> [] /\ (length c <= B)%nat) (pump_reads B stop evs).
+Proof. exact (fun B stop evs HB => conj (pump_reads_concat B stop evs) (pump_reads_shape B stop HB evs)). Qed.
+Print Assumptions C03_source_to_buffer.
+
+(* hence the lines and blocks read behind wrapTransferInput are the reference parse of the
+   delivered bytes (of nothing, when in-band data is to be ignored because the tunnel is
+   connected, or the transfer has been stopped): they depend neither on the segmentation of
+   the source nor on the size of the read buffer *)
+Theorem C03_source_reference : forall B tc st tn evs ops,
+  run ops (pump_transfer B tc st tn evs) =
+  ref_run ops (if negb (tc && negb tn) && negb st then delivered true evs else []).
+Proof. exact pump_transfer_reference. Qed.
+Print Assumptions C03_source_reference.
+
+Theorem C03_source_segmentation_independent : forall B1 B2 tc st tn evs1 evs2 ops,
+  delivered true evs1 = delivered true evs2 ->
+  run ops (pump_transfer B1 tc st tn evs1) = run ops (pump_transfer B2 tc st tn evs2).
+Proof. exact pump_transfer_independent. Qed.
+Print Assumptions C03_source_segmentation_independent.
+
+(* the same for the filter's pump, which reads on after EOF *)
+Theorem C03_filter_source_reference : forall B tc st evs ops,
+  run ops (pump_filter B tc st evs) =
+  ref_run ops (if negb tc && negb st then delivered false evs else []).
+Proof. exact pump_filter_reference. Qed.
+Print Assumptions C03_filter_source_reference.
+
+(* a relay pump parks a chunk for the handshake or forwards it, never both, never neither;
+   what the handshake then reads is the reference parse of the delivered bytes *)
+Theorem C03_relay_source_conserves : forall B hs tc tn evs,
+  unread (fst (pump_relay B hs tc tn evs)) ++ concat (snd (pump_relay B hs tc tn evs)) = delivered true evs.
+Proof. exact pump_relay_conserves. Qed.
+Print Assumptions C03_relay_source_conserves.
+
+Theorem C03_relay_source_reference : forall B hs tc tn evs ops,
+  add_handshake hs tc tn = true ->
+  run ops (fst (pump_relay B hs tc tn evs)) = ref_run ops (delivered true evs) /\
+  snd (pump_relay B hs tc tn evs) = [].
+Proof. exact pump_relay_reference. Qed.
+Print Assumptions C03_relay_source_reference.
+
+(* the read-buffer sizes regenerated from the source are positive *)
+Theorem C03_pump_buffers_positive :
+  (0 < transfer_buf_size /\ 0 < filter_buf_size /\ 0 < relay_stdin_buf_size /\
+   0 < relay_stdout_buf_size /\ 0 < tunnel_in_buf_size /\ 0 < tunnel_out_buf_size)%nat.
+Proof. exact pump_buf_sizes_positive. Qed.
+Print Assumptions C03_pump_buffers_positive.
+
+Example C03_source_example :
+  run [OpLine false; OpBinary 4; OpLine false]
+      (pump_transfer 3 false false false
+         [SrcData [35; 68]; SrcData []; SrcData [58; 52; 10; 119; 120]; SrcEnd [10; 122; 35; 83; 10]; SrcData [1; 2; 10]]) =
+  [RData [35; 68; 58; 52]; RData [119; 120; 10; 122]; RData [35; 83]].
+Proof. vm_compute. reflexivity. Qed.
 
 (* non-vacuity: a wrapped junk line, a strict line and a block, split inside CR LF *)
 Example C03_example :
